@@ -19,7 +19,7 @@ vars == <<g, inp, cfg, phase, seen>>
 
 NoSub  == [variety |-> "", gain |-> NONE, voa |-> NONE, dp |-> NONE]
 NewAmp(name) == [name |-> name, type |-> "Edfa", succ |-> {}, pred |-> {}, len |-> 0, coef |-> 0, variety |-> "",
-                 conIn |-> NONE, conOut |-> NONE, attIn |-> NONE, loss |-> 0, sub |-> <<NoSub>>, origin |-> "", coefTab |-> <<>>, opt |-> ""]
+                 conIn |-> NONE, conOut |-> NONE, attIn |-> NONE, loss |-> 0, sub |-> <<NoSub>>, origin |-> "", coefTab |-> <<>>, opt |-> "", phys |-> <<>>]
 
 -----------------------------------------------------------------------------
 (* calculate_new_length on integer metres: number of equal spans for a fibre of length L.                      *)
@@ -54,7 +54,8 @@ Init == \E c \in Cases : /\ g = c.g /\ inp = c.g /\ cfg = c.s
                          /\ phase = "split" /\ seen = {}
 
 (* ---- split_fiber: the fibre's slot becomes span 1, spans 2..k are new nodes --------------------------------- *)
-SplitTodo == {i \in Fibres(g) : g[i].origin = "" /\ i \notin seen /\ SplitCount(g[i].len, cfg) > 1}
+\* add_missing_elements_in_network (split, preamp / booster, inline) only runs when insertion is on
+SplitTodo == {i \in Fibres(g) : cfg.insert /\ g[i].origin = "" /\ i \notin seen /\ SplitCount(g[i].len, cfg) > 1}
 SplitFiber(i) ==
     LET k  == SplitCount(g[i].len, cfg)
         n  == Len(g)
@@ -71,14 +72,14 @@ SplitFiber(i) ==
 
 (* ---- add_roadm_preamp / add_roadm_booster ------------------------------------------------------------------- *)
 NotAmplifiable == {"Transceiver", "Fused", "Edfa", "Multiband_amplifier"}
-PreampTodo  == {<<r, p>> \in Nodes(g) \X Nodes(g) : g[r].type = "Roadm" /\ p \in g[r].pred /\ g[p].type \notin NotAmplifiable}
-BoosterTodo == {<<r, n>> \in Nodes(g) \X Nodes(g) : g[r].type = "Roadm" /\ n \in g[r].succ /\ g[n].type \notin NotAmplifiable}
+PreampTodo  == {<<r, p>> \in Nodes(g) \X Nodes(g) : cfg.insert /\ g[r].type = "Roadm" /\ p \in g[r].pred /\ g[p].type \notin NotAmplifiable}
+BoosterTodo == {<<r, n>> \in Nodes(g) \X Nodes(g) : cfg.insert /\ g[r].type = "Roadm" /\ n \in g[r].succ /\ g[n].type \notin NotAmplifiable}
 FirstPair(S) == CHOOSE p \in S : \A q \in S : p[1] < q[1] \/ (p[1] = q[1] /\ p[2] <= q[2])
 AddPreamp(r, p)  == g' = Insert(g, p, r, NewAmp("Edfa_preamp_" \o g[r].name \o "_from_" \o g[p].name))
 AddBooster(r, n) == g' = Insert(g, r, n, NewAmp("Edfa_booster_" \o g[r].name \o "_to_" \o g[n].name))
 
 (* ---- add_inline_amplifier ----------------------------------------------------------------------------------- *)
-InlineTodo == {i \in Fibres(g) : IsFib(g[Next1(g, i)])}
+InlineTodo == {i \in Fibres(g) : cfg.insert /\ IsFib(g[Next1(g, i)])}
 AddInline(i) == g' = Insert(g, i, Next1(g, i), NewAmp("Edfa_" \o g[i].name))
 
 (* ---- add_connector_loss ------------------------------------------------------------------------------------- *)
@@ -144,10 +145,12 @@ ChainsOneInOneOutInv          == ChainsOneInOneOut(g)
 UniqueNamesInv                == UniqueNames(g)
 RoadmReachabilityUnchangedInv == RoadmReachabilityUnchanged(inp, g)
 NothingLostNothingInventedInv == NothingLostNothingInvented(inp, g)
-EveryJunctionAmplifiedInv     == Designed => EveryJunctionAmplified(g) /\ AmplifiersOnlyAtJunctions(inp, g)
-SplitIsEqualAndConservativeInv == phase # "split" => SplitIsEqualAndConservative(inp, g, cfg)
+EveryJunctionAmplifiedInv     == Designed /\ cfg.insert => EveryJunctionAmplified(g) /\ AmplifiersOnlyAtJunctions(inp, g)
+SplitIsEqualAndConservativeInv == phase # "split" /\ cfg.insert => SplitIsEqualAndConservative(inp, g, cfg)
 EveryAmpConfiguredInv         == Designed => EveryAmpConfigured(g, cfg)
 EveryFiberHasConnectorsInv    == Designed => EveryFiberHasConnectors(g) /\ DefaultConnectorsApplied(inp, g, cfg)
 SpanAtLeastPaddingInv         == Designed => SpanAtLeastPadding(g, cfg)
 UserAttenuatorKeptInv         == UserAttenuatorKept(inp, g)
+VoaIsAttenuationInv           == Designed => VoaIsAttenuation(g)
+NoInsertionWhenNotAskedInv    == NoInsertionWhenNotAsked(inp, g, cfg)
 ==============================================================================
